@@ -122,6 +122,13 @@ func drawXZCase(t *rapid.T) caseXZ {
 			{Kind: "text", K: 4, Len: rapid.IntRange(1000, 100000).Draw(t, "w4"), Seed: rapid.Uint64().Draw(t, "ws4")},
 		}
 	}
+	if c.Cfg.EffDict() <= 1<<20 && rapid.IntRange(0, 19).Draw(t, "edge") == 0 {
+		// the only repeat lies at distance DictCap-3..DictCap+3
+		c.Data = gen.EdgeRecipe(t, c.Cfg.EffDict())
+		if c.Cfg.BlockSize != 0 && c.Cfg.BlockSize < int64(c.Data.Len()) {
+			c.Cfg.BlockSize = 0
+		}
+	}
 	if rapid.IntRange(0, 39).Draw(t, "manyblocks") == 0 {
 		// thousands of tiny blocks: an index of more than 4 KiB (2 bytes per
 		// record) and more than 2^7 / 2^14 records; cheap with the smallest
